@@ -233,8 +233,29 @@ def translate(d):
     lines.append("(* analyze family: %s *)" % ", ".join("%d=%s" % (i, n) for n, i in sorted(idx.items(), key=lambda x: x[1])))
     lines.append("Definition analyze_nfun : nat := %d." % len(names))
     lines.append("Definition analyze_edges : list edge :=\n  [ " + ";\n    ".join("(%d, %d, %s)  (* line %d: %s -> %s passes %s *)" % (idx[a], idx[b], k, l, a, b, t) for l, a, b, k, t in edges) + " ].")
+    # rank certificate: longest chain of Same edges below each function (0 for all when the Same edges have a cycle)
+    same = {}
+    for l, a, b, k, t in edges:
+        if k == "Same":
+            same.setdefault(idx[a], set()).add(idx[b])
+    rank, state = {}, {}
+
+    def rk(v):
+        if state.get(v) == 1:
+            raise ValueError("cycle")
+        if v in rank:
+            return rank[v]
+        state[v] = 1
+        rank[v] = 1 + max([rk(b) for b in same.get(v, ())], default=-1) if same.get(v) else 0
+        state[v] = 2
+        return rank[v]
+    try:
+        ranks = [rk(i) for i in range(len(names))]
+    except ValueError:
+        ranks = [0] * len(names)
+    lines.append("Definition analyze_rank : list nat := [ " + "; ".join(str(r) for r in ranks) + " ].")
     lines.append("")
-    info.update(write_sites=wsites, equal_sites=esites, strip_sites=ssites, analyze_edges=edges, analyze_names=names)
+    info.update(analyze_rank=ranks, write_sites=wsites, equal_sites=esites, strip_sites=ssites, analyze_edges=edges, analyze_names=names)
     return dict(coq="\n".join(lines), **info)
 
 
